@@ -62,9 +62,17 @@ class RustSRPAnalyzer(RustBaseAnalyzer):
         Returns:
             The type identifier name (e.g., "Foo" from "impl Foo {}")
         """
-        for child in impl_node.children:
-            if child.type == "type_identifier":
-                return self.extract_node_text(child)
+        target = impl_node.child_by_field_name("type")
+        # impl<T> Foo<T> / impl<'a> Foo<'a>: the named type sits inside the generic type
+        if target is not None and target.type == "generic_type":
+            target = target.child_by_field_name("type")
+        # impl crate::Foo: the last path segment names the type
+        if target is not None and target.type == "scoped_type_identifier":
+            target = target.child_by_field_name("name")
+        if target is not None and target.type == "type_identifier":
+            return self.extract_node_text(target)
+        if target is None:  # not an impl block (struct declaration): its own name
+            return self._extract_type_name(impl_node)
         return ""
 
     def count_impl_methods(self, impl_node: Any) -> int:
